@@ -7,7 +7,7 @@ Proof. destruct (Qlt_le_dec t 0).
  - apply Qmult_le_0_compat; lra. Qed.
 
 (* case-split the Q comparisons of the goal one at a time, pruning impossible branches at once *)
-Ltac qcmpp := repeat (qcmp1; try (exfalso; lra)).
+Ltac qcmpp := repeat (qcmp1; cbn [negb] in *; try (exfalso; lra)).
 (* ties: from x <= y and y <= x record x == y *)
 Ltac qtie := repeat match goal with
   | H1 : ?x <= ?y, H2 : ?y <= ?x |- _ =>
